@@ -4,7 +4,7 @@
 
 package localcachedmap
 
-//@ property C06 C12
+//@ property C06 C12 C11
 
 // lastmerged: ghost - the merged key GetOrCreate used for its lookup
 //@ ghost var lastmerged []byte
